@@ -770,6 +770,28 @@ theorem agent_conservation_refuted :
     aops false {} [.add 0 10, .tick false [], .add 0 20, .tick false [], .add 0 30, .tick true []] = witness := by
   decide
 
+/-- **completeSend only after an accepted send** — whatever the client answers (accepted, pending
+with the channel closed later or never, error; pending twice, pending then error, …), the loop
+makes at most two calls, and it calls `completeSend` only if the client accepted the report;
+conversely an accepted report is completed unless the agent is shut down while waiting. -/
+theorem loop_completes_iff_accepted (script : List Resp) :
+    ((loopRes script).fin = .completed → (loopRes script).accepted = true) ∧
+    ((loopRes script).accepted = true → (loopRes script).fin = .completed ∨ (loopRes script).fin = .cancelled) ∧
+    (loopRes script).sends ≤ 2 := by
+  cases script with
+  | nil => simp [loopRes]
+  | cons a t =>
+    cases a <;> simp [loopRes]
+    cases t with
+    | nil => simp [retryRes]
+    | cons b u => cases b <;> simp [retryRes]
+
+example : (loopRes [.pend, .pend, .acc]).fin = .stillPending ∧ (loopRes [.pend, .pend, .acc]).sends = 2 := by decide
+example : (loopRes [.pend, .acc]).fin = .completed := by decide
+-- pending twice on the repaired tracker: nothing is cleared, the next accepted report carries all
+example : (arun true [.add 0 10, AOp.ofScript [.pend, .pend] [], .add 0 25, AOp.ofScript [.acc] []]).sentTotal 0 = 25 := by
+  decide
+
 /-! ## Non-vacuity: concrete histories evaluated by the kernel -/
 
 -- the witness is a history of the agent, satisfies Monotone, and loses 10 of 30
